@@ -4,6 +4,7 @@ import (
 	"context"
 	"errors"
 	"fmt"
+	"sync"
 	"testing/synctest"
 	"time"
 
@@ -25,6 +26,8 @@ import (
 type prunedNode struct {
 	c        *sim.Ctx
 	n        *Node
+	pdb      *faultdb.DB // the pruner service's own view of the store: its commits are told apart from the harness's by the wrapper they go through, not by a flag two goroutines would race on
+	gate     sync.Mutex  // held by the harness while it is inside one of its own operations: the pruner's commits wait until the harness is parked
 	floor    *pruner.RetentionFloor
 	heads    *feed.Feed[*core.Block]
 	cancel   context.CancelFunc
@@ -54,7 +57,8 @@ func (p *prunedNode) attach(st *Store) {
 	ctx, cancel := context.WithCancel(context.Background())
 	p.cancel = cancel
 	p.done = make(chan struct{})
-	svc := pruner.New(n.FDB, floor, p.retained, p.heads.Subscribe(), n.BC.SubscribeL1Head().Subscription, log.NewNopZapLogger(), p.opts...)
+	p.pdb = faultdb.Wrap(st.kv)
+	svc := pruner.New(p.pdb, floor, p.retained, p.heads.Subscribe(), n.BC.SubscribeL1Head().Subscription, log.NewNopZapLogger(), p.opts...)
 	go func() {
 		defer close(p.done)
 		if err := svc.Run(ctx); err != nil {
@@ -196,7 +200,20 @@ func C16(c *sim.Ctx) {
 		entitled int64 // highest floor a prune was entitled to when the image was taken
 	}
 	var images []pruneImage
-	inOwnOp := false
+	gated := false
+	lock := func() {
+		if !gated {
+			p.gate.Lock()
+			gated = true
+		}
+	}
+	unlock := func() {
+		if gated {
+			p.gate.Unlock()
+			gated = false
+		}
+	}
+	defer unlock()
 	// fault class: one commit issued by the pruner fails (own operations are not counted)
 	injectPruneError := t.Draw("prune.error", 4) == 0
 	failAt := 0
@@ -206,21 +223,22 @@ func C16(c *sim.Ctx) {
 	var midFail *mismatch // found by the reader that runs between two prune batch commits
 	pruneCommits := 0
 	hookImages := func(n *Node) {
-		n.FDB.Plan.FailCommitAt = 0
-		n.FDB.Plan.BeforeCommit = func(int) {
-			if inOwnOp || failAt == 0 {
+		pdb := p.pdb
+		pdb.Plan.FailCommitAt = 0
+		pdb.Plan.BeforeCommit = func(int) {
+			// the pruner runs on its own goroutine: it commits only while the harness is parked
+			p.gate.Lock()
+			p.gate.Unlock() //nolint:staticcheck // gate, not a critical section
+			if failAt == 0 {
 				return
 			}
 			pruneCommits++
 			if pruneCommits == failAt {
 				// arm the failure for exactly this commit
-				n.FDB.Plan.FailCommitAt = n.FDB.Commits
+				pdb.Plan.FailCommitAt = pdb.Commits
 			}
 		}
-		n.FDB.Plan.AfterCommit = func(int) {
-			if inOwnOp {
-				return
-			}
+		pdb.Plan.AfterCommit = func(int) {
 			if len(images) < 4 {
 				images = append(images, pruneImage{n.St.CrashImage(c), allowed})
 				c.Logf("crash image %d taken after a prune batch commit (entitled floor %d)", len(images), allowed)
@@ -314,6 +332,7 @@ func C16(c *sim.Ctx) {
 	steps := 8 + t.Draw("steps", 30)
 	for s := 0; s < steps; s++ {
 		op := t.Draw("op", 16)
+		lock()
 		switch {
 		case op <= 6 || len(m.Chain) == 0:
 			if len(m.Chain) >= 40 {
@@ -327,13 +346,11 @@ func C16(c *sim.Ctx) {
 				d.opts.MinTime = uint64(time.Now().Unix()) - uint64(t.Draw("ts.skew", 600))
 			}
 			b := d.next(m.Head())
-			inOwnOp = true
 			for _, n := range []*Node{p.n, twin} {
 				if err := n.StoreBlock(b); err != nil {
 					c.Fail("valid_block_rejected", "store", "[%s] valid block %d rejected on a pruning node: %v", n.Name, b.B.Number, err)
 				}
 			}
-			inOwnOp = false
 			m.Chain = append(m.Chain, b)
 			c.Logf("store block %d ts=start%+ds", b.B.Number, int64(b.B.Timestamp)-start.Unix())
 			noteBound()
@@ -344,13 +361,11 @@ func C16(c *sim.Ctx) {
 				continue
 			}
 			h := m.Head()
-			inOwnOp = true
 			for _, n := range []*Node{p.n, twin} {
 				if err := n.BC.RevertHead(); err != nil {
 					c.Fail("revert_failed", "pruning_node", "[%s] RevertHead of block %d (oldest retained %d) failed: %v", n.Name, h.B.Number, lastOldest, err)
 				}
 			}
-			inOwnOp = false
 			m.Chain = m.Chain[:len(m.Chain)-1]
 			m.Reverted = append(m.Reverted, h)
 			d.newFork()
@@ -380,11 +395,9 @@ func C16(c *sim.Ctx) {
 			}
 			noteBound()
 			c.Logf("L1 head -> %d (local head %d)", num, head)
-			inOwnOp = true
 			if err := p.n.BC.SetL1Head(lh); err != nil {
 				c.Fail("valid_op_failed", "set L1", "SetL1Head: %v", err)
 			}
-			inOwnOp = false
 			m.L1Head = lh
 		case op <= 13:
 			dur := time.Duration(1+t.Draw("sleep.min", 120)) * time.Minute
@@ -392,34 +405,36 @@ func C16(c *sim.Ctx) {
 				dur += minAge + 8*time.Minute // long enough for blocks to age and the sampler to tick
 			}
 			c.Logf("clock +%v", dur)
+			unlock() // nothing of the harness's own runs while the clock advances
 			time.Sleep(dur)
 			c.Fault("clock_advance")
 		default:
 			graceful := t.Draw("restart.graceful", 2) == 1
 			c.Logf("restart pruning node graceful=%v", graceful)
 			p.stop()
-			inOwnOp = true
 			if graceful {
 				_ = p.n.BC.WriteRunningEventFilter()
 				c.Fault("graceful_restart")
 			} else {
 				c.Fault("ungraceful_restart")
 			}
-			inOwnOp = false
+			unlock() // start-up runs with the harness parked in attach
 			p.attach(p.n.St)
 			hookImages(p.n)
 		}
+		unlock()
 		synctest.Wait()
 		if midFail != nil {
 			c.Fail("mid_prune_read", midFail.class+":"+midFail.key, "a reader scheduled between two batch writes of a prune: %s", midFail.detail)
 		}
-		for _, f := range p.n.FDB.Fired {
+		for _, f := range p.pdb.Fired {
 			c.Fault("prune_" + f)
 		}
-		p.n.FDB.Fired = nil
+		p.pdb.Fired = nil
 		check(p.n, "pruned")
 	}
 	// twin sanity: the unpruned node still has everything (the model itself is validated)
+	unlock()
 	kt := &checker{n: twin, m: m}
 	kt.CheckHead()
 	p.stop()
@@ -461,15 +476,12 @@ func C16(c *sim.Ctx) {
 			mm.Chain = append(mm.Chain, found)
 		}
 		rk := &checker{n: rn, m: mm}
-		// An interrupted prune has removed hash-keyed lookups of blocks below the floor it was
-		// entitled to before it removes their number-keyed records (which define the database's
-		// "oldest retained block"). Blocks at or above the entitled floor must be complete; blocks
-		// between the database's oldest retained block and the entitled floor are in the middle of
-		// being pruned: every accessor may fail or must return the complete stored value.
+		// A restarted node seeds its retention floor from the database (the oldest block whose
+		// commitments record is present), so after a crash at any batch boundary of a prune every
+		// block from there up must be complete, hash-keyed lookups included; the blocks below it
+		// are in the middle of being pruned (hash-keyed lookups gone, number-keyed records still
+		// there): every accessor may fail or must return the complete stored value.
 		complete := oldest
-		if pimg.entitled > int64(complete) {
-			complete = uint64(pimg.entitled)
-		}
 		c.Logf("recover prune crash image: head=%d oldest_retained=%d entitled_floor=%d", h, oldest, pimg.entitled)
 		for i := complete; i <= h; i++ {
 			rk.CheckBlock(mm.Chain[i])
